@@ -80,3 +80,22 @@ theorem splitLines_insert_newlines (k : Nat) (a b : List Char) :
   rw [splitLines_append_nl_general, splitLines_replicate_nl, List.append_assoc]
 
 end Bluebell
+
+namespace Bluebell
+
+theorem linesOf_insert_newlines (k : Nat) (a b : List Char) :
+    linesOf (a ++ '\n' :: (List.replicate k '\n' ++ b)) = splitLines a ++ List.replicate k [] ++ linesOf b := by
+  unfold linesOf
+  rw [splitLines_insert_newlines, List.dropLast_append_of_ne_nil (splitLines_ne_nil b)]
+
+/-- On the text the indentation pass sees: `k` extra newline characters after any newline change neither the
+stack nor the markers and non-empty lines produced. -/
+theorem passT_text_insert_newlines (k : Nat) (a b : List Char) (st : List Int) :
+    visible (passT (linesOf (a ++ '\n' :: (List.replicate k '\n' ++ b))) st).1 = visible (passT (linesOf (a ++ '\n' :: b)) st).1 ∧
+    (passT (linesOf (a ++ '\n' :: (List.replicate k '\n' ++ b))) st).2 = (passT (linesOf (a ++ '\n' :: b)) st).2 := by
+  have h0 := linesOf_insert_newlines 0 a b
+  simp only [List.replicate_zero, List.nil_append, List.append_nil] at h0
+  rw [linesOf_insert_newlines, h0]
+  exact passT_insert_blanks k (splitLines a) (linesOf b) st
+
+end Bluebell
